@@ -67,6 +67,9 @@ type Backend struct {
 	impureOps   []string
 	LogReads    bool
 	pointsOff   bool
+	// PutHook, when set, sees every value that reaches the wrapped store
+	// (plain puts and puts inside transactions), before it is written.
+	PutHook func(key string, value []byte)
 }
 
 type TxBackend struct {
@@ -330,6 +333,9 @@ func (b *Backend) Put(ctx context.Context, e *physical.Entry) error {
 	if err != nil {
 		return err
 	}
+	if h := b.PutHook; h != nil {
+		h(e.Key, append([]byte{}, e.Value...))
+	}
 	err = b.inner.Put(ctx, e)
 	if err == nil {
 		b.mutated()
@@ -423,6 +429,9 @@ func (t *tx) Put(ctx context.Context, e *physical.Entry) error {
 	seq, err := t.b.before("put", e.Key, true)
 	if err != nil {
 		return err
+	}
+	if h := t.b.PutHook; h != nil {
+		h(e.Key, append([]byte{}, e.Value...))
 	}
 	err = t.inner.Put(ctx, e)
 	if err == nil {
